@@ -140,6 +140,9 @@ func runC17(p *core.Prog, r *core.Report) {
 	})
 	// the preconditions named in the allow-table
 	r.Guard("C17.R1", "preconditions", "validation preconditions", func() { checkValidationPreconditions(p, r) })
+	r.Guard("C17.R1", "stage-index", "request stage number bounded", func() { checkStageIndexBound(p, r) })
+	r.Guard("C17.R1", "overflow", "wrap-around guards", func() { checkOverflowGuards(p, r) })
+	r.Guard("C17.R1", "optional-message", "optional message fields", func() { checkOptionalMessageDerefs(p, r) })
 
 	// ------------------------------------------------------------------ R2
 	r.Guard("C17.R2", "validate-first", "validation precedes use", func() {
@@ -174,21 +177,20 @@ func runC17(p *core.Prog, r *core.Report) {
 				}
 			}
 			r.Check(len(nilEdges) > 0 && okDom, "C17.R2", h.fn+"/validated", "the handler builds the module graph / processes the request only after "+h.val+" returned no error", "use reachable without passing the successful validation", p.Pos(v.Pos()))
-			// a validation error is answered with invalid argument
+			// a validation error is answered with the invalid-argument error OF THE HANDLER'S PROTOCOL: a connect handler
+			// must return a connect error, a plain grpc handler a grpc status (a connect error returned by a grpc
+			// handler, or a bsstream error returned outside toConnectError, reaches the client with the code Unknown)
+			proto := handlerProtocol(fn)
 			okInv := false
+			got := ""
 			for _, e := range errNonNilEdges(fn, v) {
-				b := e.From.Succs[e.Idx]
-				for _, in := range b.Instrs {
-					if c, ok := in.(*ssa.Call); ok {
-						if cl := core.CommonCallee(c.Common()); cl != nil && calleeKey(cl) == "connectrpc.com/connect.NewError" {
-							if k, ok := c.Call.Args[0].(*ssa.Const); ok && k.Value.ExactString() == "3" {
-								okInv = true
-							}
-						}
-					}
+				k := invalidArgKind(e.From.Succs[e.Idx])
+				got += k + " "
+				if k == proto {
+					okInv = true
 				}
 			}
-			r.Check(okInv, "C17.R2", h.fn+"/invalid-argument", "a validation failure is answered with an invalid-argument error", "error branch does not build connect.CodeInvalidArgument", p.Pos(v.Pos()))
+			r.Check(okInv, "C17.R2", h.fn+"/invalid-argument", "a validation failure is answered with an invalid-argument error of the handler's own protocol ("+proto+")", "error branch builds: "+got, p.Pos(v.Pos()))
 		}
 		// every validation step's error ends validateRequest / ValidateTierXRequest with that error
 		for _, vf := range []string{"validateRequest", "ValidateTier1Request", "ValidateTier2Request"} {
@@ -224,20 +226,56 @@ func runC17(p *core.Prog, r *core.Report) {
 				core.Undecide("%s: no validation step found", vf)
 			}
 		}
-		// graph construction errors are invalid-argument too
+		// graph construction errors are invalid-argument too (in the handler's protocol: Blocks returns them outside of
+		// toConnectError)
 		b := p.Func(pkgSvc, "Tier1Service.Blocks")
 		okG := false
+		gotG := ""
 		for _, c := range core.FindInstrs(b, core.IsCallTo(p.FuncObj(pkgExec, "NewOutputModuleGraph"))) {
 			for _, e := range errNonNilEdges(b, c) {
-				blk := e.From.Succs[e.Idx]
-				for _, in := range blk.Instrs {
-					if cl := core.CalleeOf(in); cl != nil && cl.Name() == "NewErrInvalidArg" {
-						okG = true
-					}
+				k := invalidArgKind(e.From.Succs[e.Idx])
+				gotG += k + " "
+				if k == handlerProtocol(b) {
+					okG = true
 				}
 			}
 		}
-		r.Check(okG, "C17.R2", "Blocks/graph-error", "a module graph that cannot be built is answered with an invalid-argument error", "NewErrInvalidArg not used on the error branch", p.Pos(b.Pos()))
+		r.Check(okG, "C17.R2", "Blocks/graph-error", "a module graph that cannot be built is answered with a connect invalid-argument error", "error branch builds: "+gotG, p.Pos(b.Pos()))
+		// a missing module list is refused the same way, in both handlers
+		for _, hn := range []string{"Tier1Service.Blocks", "Tier2Service.ProcessRange"} {
+			fn := p.Func(pkgSvc, hn)
+			okM := false
+			gotM := ""
+			core.Instrs(fn, func(in ssa.Instruction) {
+				ifi, ok := in.(*ssa.If)
+				if !ok {
+					return
+				}
+				c, neg := core.StripNot(ifi.Cond)
+				bo, ok := c.(*ssa.BinOp)
+				if !ok || (bo.Op != token.EQL && bo.Op != token.NEQ) {
+					return
+				}
+				if k, ok := bo.Y.(*ssa.Const); !ok || !k.IsNil() {
+					return
+				}
+				f, _ := core.LoadedField(bo.X)
+				if f == nil || f.Name() != "Modules" {
+					return
+				}
+				idx := 0
+				if (bo.Op == token.NEQ) != neg {
+					idx = 1
+				}
+				k := invalidArgKind(ifi.Block().Succs[idx])
+				gotM += k + " "
+				if k == handlerProtocol(fn) {
+					okM = true
+				}
+			})
+			r.Check(okM, "C17.R2", hn+"/missing-modules", "a request without module list is refused with an invalid-argument error of the handler's own protocol ("+handlerProtocol(fn)+")", "nil branch builds: "+gotM, p.Pos(fn.Pos()))
+		}
+		checkErrorCodeMapping(p, r)
 	})
 
 	// ------------------------------------------------------------------ R3
